@@ -29,6 +29,91 @@ class ScheduleError(RuntimeError):
     pass
 
 
+def reachable_arrays(root, max_nodes=20000):
+    """Every numpy array (and the arrays of every scipy sparse matrix) reachable from `root` through tuples, lists, dicts,
+    object attributes, closures, partials and defaults.  Returns {id: array}."""
+    import types
+    import numpy as np
+    try:
+        import scipy.sparse as sp
+    except Exception:       # pragma: no cover
+        sp = None
+    found, seen, stack, n = {}, set(), [root], 0
+    while stack and n < max_nodes:
+        x = stack.pop()
+        if id(x) in seen:
+            continue
+        seen.add(id(x))
+        n += 1
+        if isinstance(x, np.ndarray):
+            if x.dtype != object:
+                found[id(x)] = x
+            else:
+                stack.extend(x.ravel().tolist())
+            continue
+        if sp is not None and sp.issparse(x):
+            for name in ("data", "indices", "indptr", "row", "col"):
+                a = getattr(x, name, None)
+                if isinstance(a, np.ndarray):
+                    found[id(a)] = a
+            continue
+        if isinstance(x, (str, bytes, int, float, bool, type(None), complex, type, types.ModuleType)):
+            continue
+        if isinstance(x, dict):
+            stack.extend(x.values())
+            continue
+        if isinstance(x, (list, tuple, set, frozenset)):
+            stack.extend(x)
+            continue
+        if isinstance(x, types.MethodType):
+            stack.append(x.__self__)
+            stack.append(x.__func__)
+            continue
+        if isinstance(x, types.FunctionType):
+            if x.__closure__:
+                for c in x.__closure__:
+                    try:
+                        stack.append(c.cell_contents)
+                    except ValueError:
+                        pass
+            if x.__defaults__:
+                stack.extend(x.__defaults__)
+            if x.__kwdefaults__:
+                stack.extend(x.__kwdefaults__.values())
+            continue
+        if hasattr(x, "func") and hasattr(x, "args"):          # functools.partial, dask Task
+            stack.append(getattr(x, "func", None))
+            stack.append(getattr(x, "args", None))
+            stack.append(getattr(x, "kwargs", None) or getattr(x, "keywords", None))
+        d = getattr(x, "__dict__", None)
+        if isinstance(d, dict):
+            stack.extend(d.values())
+        slots = getattr(type(x), "__slots__", ())
+        for name in (slots if isinstance(slots, (list, tuple)) else ()):
+            try:
+                stack.append(getattr(x, name))
+            except Exception:
+                pass
+        if hasattr(x, "__iter__") and hasattr(x, "__len__") and not d:
+            try:
+                if len(x) <= 5000:
+                    stack.extend(list(x))
+            except Exception:
+                pass
+    return found
+
+
+def _digests(arrays):
+    import hashlib
+    out = {}
+    for i, a in arrays.items():
+        try:
+            out[i] = hashlib.blake2b(a.tobytes(), digest_size=8).digest() if a.nbytes <= (1 << 22) else (a.shape, float(a.sum()))
+        except Exception:
+            pass
+    return out
+
+
 class Scheduler:
     def __init__(self, prefix):
         self.prefix = list(prefix)
@@ -40,6 +125,10 @@ class Scheduler:
         self.next_id = 0
         self.errors = []
         self.trace = []          # (task id, point label)
+        # shared-mutable-state detector: arrays reachable from each live task and their last known digests
+        self.reach = {}          # task id -> {id: array}
+        self.seen_digest = {}    # task id -> {id: digest} as of the last moment the task itself ran
+        self.races = []          # (writer-unknown, victim task id, array shape, where)
 
     def _choose(self, running_enabled):
         order = sorted(self.enabled)
@@ -64,9 +153,26 @@ class Scheduler:
             self.sems[tid] = threading.Semaphore(0)
             return tid
 
-    def enable(self, tid):
+    def enable(self, tid, roots=None):
         with self.lock:
             self.enabled.append(tid)
+            if roots is not None:
+                self.reach[tid] = reachable_arrays(roots)
+                self.seen_digest[tid] = _digests(self.reach[tid])
+
+    def _check_foreign_writes(self, tid, where):
+        """Called when task `tid` is about to run again (or to finish): an array it can reach whose content changed while
+        the task was NOT running was written by another concurrently live task - unsynchronised shared mutable state."""
+        now = _digests(self.reach.get(tid, {}))
+        old = self.seen_digest.get(tid, {})
+        for i, dg in now.items():
+            if i in old and old[i] != dg:
+                a = self.reach[tid][i]
+                self.races.append((tid, tuple(a.shape), str(a.dtype), where))
+        self.seen_digest[tid] = now
+
+    def _note_own_writes(self, tid):
+        self.seen_digest[tid] = _digests(self.reach.get(tid, {}))
 
     def on_idle(self):
         """The submitting thread is about to block waiting for a result: every ready task has been
@@ -87,6 +193,8 @@ class Scheduler:
     def wait_turn(self, tid):
         if not self.sems[tid].acquire(timeout=60):
             raise ScheduleError("task %d was never scheduled (deadlock)" % tid)
+        with self.lock:
+            self._check_foreign_writes(tid, "before its first step")
 
     def point(self, label):
         tid = getattr(_local, "tid", None)
@@ -100,10 +208,14 @@ class Scheduler:
                 self.errors.append(e)
                 nxt = tid
             self.running = nxt
+            if nxt != tid:
+                self._note_own_writes(tid)
         if nxt != tid:
             self.sems[nxt].release()
             if not self.sems[tid].acquire(timeout=60):
                 raise ScheduleError("task %d never got the baton back" % tid)
+            with self.lock:
+                self._check_foreign_writes(tid, "at scheduling point %s" % label)
 
     def finish(self, tid):
         """The task is done: it gives the baton up; the next holder is chosen when the submitting thread
@@ -111,6 +223,9 @@ class Scheduler:
         with self.lock:
             self.enabled.remove(tid)
             self.running = None
+            # what this task wrote is visible to the tasks that are still live: they will notice at their next step
+            self.reach.pop(tid, None)
+            self.seen_digest.pop(tid, None)
 
 
 _local = threading.local()
@@ -145,7 +260,7 @@ class ControlledExecutor(Executor):
         t = threading.Thread(target=body, daemon=True)
         t.start()
         self.threads.append(t)
-        sched.enable(tid)
+        sched.enable(tid, roots=(fn, args, kwargs))
         return fut
 
     def shutdown(self, wait=True, **kw):
